@@ -54,10 +54,16 @@ type layoutInput struct {
 	Extend  map[int]bool `json:"extend,omitempty"`
 	Choices []int        `json:"choices"`
 	Text    string       `json:"text,omitempty"`
+	// checksum twins (gen.ChecksumTwins): After is a different, acceptable document of the same length and the same
+	// CRC-32 / CRC-64 checksums as this one; it is parsed first. Suffix is the comment line that makes this document its twin.
+	After  string `json:"parsed_first,omitempty"`
+	Suffix string `json:"suffix,omitempty"`
 }
 
 func (in layoutInput) render() *gen.Rendered {
-	return gen.Render(in.Model, &vectorChooser{digits: in.Choices}, gen.RenderOpts{Module: in.Module, Extend: in.Extend})
+	r := gen.Render(in.Model, &vectorChooser{digits: in.Choices}, gen.RenderOpts{Module: in.Module, Extend: in.Extend})
+	r.Text += in.Suffix
+	return r
 }
 
 func repoGrammar() *g4.Grammar {
